@@ -122,7 +122,34 @@ let () =
     while true do
       let line = input_line stdin in
       toks := List.filter (fun s -> s <> "") (Stdlib.String.split_on_char ' ' line);
-      if !toks <> [] && (List.hd !toks).[0] <> '#' then begin
+      (* the accessors of Data/AccessorsModel.v, outside the two-object machine's op type *)
+      let special =
+        (match !toks with
+         | [o; "allocinit"; t; r; c; f] ->
+           let i = int_of_string o in
+           let z x = z_of_int (int_of_string x) in
+           let (res, x) = alloc_and_init vzero vdef (z t) (z r) (z c) (z f) in
+           (* NULL: the harness puts a fresh vnadata_alloc object into the slot *)
+           let d = (match res with Some d -> d | None -> vd_alloc vzero vdef) in
+           st := put !st (i = 1) d;
+           let rs = (match x.o_ret with ROk -> "ok" | RFail -> "fail" | RFault -> "fault") in
+           let es = (match x.o_ret with RFail -> "EINVAL" | _ -> "0") in
+           Printf.printf "R %s %s %d -\n" rs es (int_of_nat x.o_cb);
+           Printf.printf "%s\n" (digest i d); true
+         | [o; "typename"; k] ->
+           let i = int_of_string o in
+           Printf.printf "R ok 0 0 s %s\n"
+             (match type_name (z_of_int (int_of_string k)) with Some s -> ocaml_string s | None -> "NULL");
+           Printf.printf "%s\n" (digest i (sel !st (i = 1))); true
+         | [o; "setfmtbad"; _] ->
+           (* a string with a field that does not parse: AccessorsModel.set_format_c refuses it and
+              leaves the format alone, whatever the current format is *)
+           let i = int_of_string o in
+           let (_, accepted) = set_format_c false f_new (Some [None]) in
+           Printf.printf "R %s\n" (if accepted then "ok 0 0 -" else "fail EINVAL 1 -");
+           Printf.printf "%s\n" (digest i (sel !st (i = 1))); true
+         | _ -> false) in
+      if not special && !toks <> [] && (List.hd !toks).[0] <> '#' then begin
         let first = next () in
         let (mop, target) =
           if first = "reset" then (MReset, 0)
